@@ -32,7 +32,14 @@ import (
 
 func init() {
 	verifScenarios["C07"] = verifsim.Scenario{Bubble: true, MinBudget: 6, Fn: func(t *testing.T, r *verifsim.Run) { c07Run(t, r, "C07") }}
-	verifScenarios["C08"] = verifsim.Scenario{Bubble: true, MinBudget: 6, Fn: func(t *testing.T, r *verifsim.Run) { c07Run(t, r, "C08") }}
+	verifScenarios["C08"] = verifsim.Scenario{Bubble: true, MinBudget: 6, Fn: func(t *testing.T, r *verifsim.Run) {
+		// one run in six is the node-level mode (c08node.go)
+		if r.T.Weighted("c08-engine", 5, 1) == 1 {
+			c08nodeRun(t, r)
+			return
+		}
+		c07Run(t, r, "C08")
+	}}
 }
 
 type c07Member struct {
@@ -379,8 +386,22 @@ func c07Run(t *testing.T, r *verifsim.Run, mode string) {
 	}
 	// ---- signing by an honest-threshold subset ----
 	sperm := tp.Perm("signers", k)
+	// the honest threshold exactly (what production trims to) or, sometimes,
+	// a larger quorum of the final group
+	nSigners := cfg.h
+	if k > cfg.h {
+		w := make([]int, k-cfg.h+1)
+		w[0] = 3
+		for i := 1; i < len(w); i++ {
+			w[i] = 1
+		}
+		nSigners += tp.Weighted("signers-above-threshold", w...)
+		if nSigners > cfg.h {
+			r.Probe("signing-quorum-above-threshold")
+		}
+	}
 	inSet := map[int]bool{}
-	for i := 0; i < cfg.h; i++ {
+	for i := 0; i < nSigners; i++ {
 		inSet[sperm[i]] = true
 	}
 	var signers []*c07Member
